@@ -48,7 +48,7 @@ def Py2(x: int = 1) -> tuple[int, int]:
     raise AssertionError(f"unknown mode {m!r}")
 
 
-SH_SCRIPT = 'echo sh >> "$VT_C13_LOG"; c=$(cat "$VT_C13_CODE"); if [ "$c" = 1 ]; then false; else exit "$c"; fi'
+SH_SCRIPT = 'echo sh >> "$VT_C13_LOG"; c=$(cat "$VT_C13_CODE"); if [ "$c" = 1 ]; then false; elif [ "$c" = 9 ]; then kill -KILL $$; else exit "$c"; fi'
 
 
 @shell.define
